@@ -25,6 +25,7 @@ import (
 	"google.golang.org/genproto/googleapis/rpc/errdetails"
 	"google.golang.org/grpc"
 	"google.golang.org/grpc/codes"
+	"google.golang.org/grpc/metadata"
 	"google.golang.org/grpc/status"
 	"google.golang.org/protobuf/proto"
 	"google.golang.org/protobuf/types/known/durationpb"
@@ -79,11 +80,15 @@ type Scenario struct {
 	Kind       string        `json:"kind"`
 	Token      string        `json:"token"`
 	Headers    map[string]string `json:"headers,omitempty"`
+	Timeout    time.Duration     `json:"timeout,omitempty"` // WithTimeout (0: the default)
+	Hang       bool              `json:"hang,omitempty"`    // the collector never answers
+	HookBefore bool              `json:"hook_before,omitempty"` // the cancellation happens before response CancelAt is written (deterministic), not after
 }
 
 type arrival struct {
 	at   time.Duration
 	hash uint64
+	hdr  bool // the request carried the x-verif-hdr header / metadata
 }
 
 type Obs struct {
@@ -106,6 +111,8 @@ type collector struct {
 	start    time.Time
 	arrivals []arrival
 	after    func(idx int) // hook run once response idx has been written
+	release  chan struct{} // closed at the end of a scenario: lets a hanging collector's handlers go
+	hookLag  atomic.Int64  // ns between "response written" and "cancellation / shutdown issued" (after-hooks): scheduling delay of the harness
 }
 
 func hashBody(b []byte) uint64 {
@@ -114,11 +121,20 @@ func hashBody(b []byte) uint64 {
 }
 
 // next records an arrival and returns the index of the response to give.
-func (c *collector) next(body []byte) int {
+func (c *collector) next(body []byte, hdr bool) int {
 	c.mu.Lock()
 	defer c.mu.Unlock()
-	c.arrivals = append(c.arrivals, arrival{time.Since(c.start), hashBody(body)})
+	c.arrivals = append(c.arrivals, arrival{time.Since(c.start), hashBody(body), hdr})
 	return len(c.arrivals) - 1
+}
+
+// hang blocks a handler of a collector that never answers until the client goes away or the scenario ends.
+func (c *collector) hang(ctx context.Context) {
+	select {
+	case <-ctx.Done():
+	case <-c.release:
+	case <-time.After(20 * time.Second):
+	}
 }
 
 func (c *collector) resp(idx int) Resp {
@@ -150,8 +166,15 @@ func partialBody(sig int, token string) []byte {
 
 func (c *collector) ServeHTTP(w http.ResponseWriter, r *http.Request) {
 	body, _ := io.ReadAll(r.Body)
-	idx := c.next(body)
+	idx := c.next(body, r.Header.Get("x-verif-hdr") == "v")
+	if c.sc.Hang {
+		c.hang(r.Context())
+		return
+	}
 	rs := c.resp(idx)
+	if c.sc.HookBefore && c.after != nil {
+		c.after(idx)
+	}
 	if rs.RetryAfter != "" {
 		w.Header().Set("Retry-After", rs.RetryAfter)
 	}
@@ -171,14 +194,24 @@ func (c *collector) ServeHTTP(w http.ResponseWriter, r *http.Request) {
 	if f, ok := w.(http.Flusher); ok {
 		f.Flush()
 	}
-	if c.after != nil {
+	if c.after != nil && !c.sc.HookBefore {
+		t := time.Now()
 		c.after(idx)
+		if idx == c.sc.CancelAt || idx == c.sc.ShutdownAt {
+			c.hookLag.Store(int64(time.Since(t)))
+		}
 	}
 }
 
-func (c *collector) grpcAnswer(req proto.Message) (bool, error) {
+func (c *collector) grpcAnswer(ctx context.Context, req proto.Message) (bool, error) {
 	b, _ := proto.MarshalOptions{Deterministic: true}.Marshal(req)
-	idx := c.next(b)
+	md, _ := metadata.FromIncomingContext(ctx)
+	v := md.Get("x-verif-hdr")
+	idx := c.next(b, len(v) == 1 && v[0] == "v")
+	if c.sc.Hang {
+		c.hang(ctx)
+		return false, status.Error(codes.Unavailable, "hung")
+	}
 	rs := c.resp(idx)
 	if c.after != nil {
 		defer c.after(idx)
@@ -201,8 +234,8 @@ type traceSvc struct {
 	c *collector
 }
 
-func (s traceSvc) Export(_ context.Context, req *coltracepb.ExportTraceServiceRequest) (*coltracepb.ExportTraceServiceResponse, error) {
-	p, err := s.c.grpcAnswer(req)
+func (s traceSvc) Export(ctx context.Context, req *coltracepb.ExportTraceServiceRequest) (*coltracepb.ExportTraceServiceResponse, error) {
+	p, err := s.c.grpcAnswer(ctx, req)
 	if err != nil {
 		return nil, err
 	}
@@ -218,8 +251,8 @@ type metricSvc struct {
 	c *collector
 }
 
-func (s metricSvc) Export(_ context.Context, req *colmetricpb.ExportMetricsServiceRequest) (*colmetricpb.ExportMetricsServiceResponse, error) {
-	p, err := s.c.grpcAnswer(req)
+func (s metricSvc) Export(ctx context.Context, req *colmetricpb.ExportMetricsServiceRequest) (*colmetricpb.ExportMetricsServiceResponse, error) {
+	p, err := s.c.grpcAnswer(ctx, req)
 	if err != nil {
 		return nil, err
 	}
@@ -235,8 +268,8 @@ type logSvc struct {
 	c *collector
 }
 
-func (s logSvc) Export(_ context.Context, req *collogpb.ExportLogsServiceRequest) (*collogpb.ExportLogsServiceResponse, error) {
-	p, err := s.c.grpcAnswer(req)
+func (s logSvc) Export(ctx context.Context, req *collogpb.ExportLogsServiceRequest) (*collogpb.ExportLogsServiceResponse, error) {
+	p, err := s.c.grpcAnswer(ctx, req)
 	if err != nil {
 		return nil, err
 	}
@@ -288,6 +321,9 @@ func mkExporter(e int, endpoint string, sc *Scenario) (*exporter, error) {
 		if sc.Headers != nil {
 			opts = append(opts, otlptracehttp.WithHeaders(sc.Headers))
 		}
+		if sc.Timeout > 0 {
+			opts = append(opts, otlptracehttp.WithTimeout(sc.Timeout))
+		}
 		x, err := otlptracehttp.New(ctx, opts...)
 		if err != nil {
 			return nil, err
@@ -295,8 +331,15 @@ func mkExporter(e int, endpoint string, sc *Scenario) (*exporter, error) {
 		spans := tracetest.SpanStubs{{Name: "span-" + sc.Token}}.Snapshots()
 		return &exporter{func(c context.Context) error { return x.ExportSpans(c, spans) }, x.Shutdown}, nil
 	case 3:
-		x, err := otlptracegrpc.New(ctx, otlptracegrpc.WithEndpoint(endpoint), otlptracegrpc.WithInsecure(),
-			otlptracegrpc.WithRetry(otlptracegrpc.RetryConfig{Enabled: sc.Enabled, InitialInterval: sc.Initial, MaxInterval: maxInt, MaxElapsedTime: sc.MaxElapsed}))
+		gopts := []otlptracegrpc.Option{otlptracegrpc.WithEndpoint(endpoint), otlptracegrpc.WithInsecure(),
+			otlptracegrpc.WithRetry(otlptracegrpc.RetryConfig{Enabled: sc.Enabled, InitialInterval: sc.Initial, MaxInterval: maxInt, MaxElapsedTime: sc.MaxElapsed})}
+		if sc.Headers != nil {
+			gopts = append(gopts, otlptracegrpc.WithHeaders(sc.Headers))
+		}
+		if sc.Timeout > 0 {
+			gopts = append(gopts, otlptracegrpc.WithTimeout(sc.Timeout))
+		}
+		x, err := otlptracegrpc.New(ctx, gopts...)
 		if err != nil {
 			return nil, err
 		}
@@ -320,14 +363,24 @@ func mkExporter(e int, endpoint string, sc *Scenario) (*exporter, error) {
 			if sc.Headers != nil {
 				opts = append(opts, otlpmetrichttp.WithHeaders(sc.Headers))
 			}
+			if sc.Timeout > 0 {
+				opts = append(opts, otlpmetrichttp.WithTimeout(sc.Timeout))
+			}
 			x, err := otlpmetrichttp.New(ctx, opts...)
 			if err != nil {
 				return nil, err
 			}
 			return &exporter{func(c context.Context) error { return x.Export(c, rm) }, x.Shutdown}, nil
 		}
-		x, err := otlpmetricgrpc.New(ctx, otlpmetricgrpc.WithEndpoint(endpoint), otlpmetricgrpc.WithInsecure(),
-			otlpmetricgrpc.WithRetry(otlpmetricgrpc.RetryConfig{Enabled: sc.Enabled, InitialInterval: sc.Initial, MaxInterval: maxInt, MaxElapsedTime: sc.MaxElapsed}))
+		gopts := []otlpmetricgrpc.Option{otlpmetricgrpc.WithEndpoint(endpoint), otlpmetricgrpc.WithInsecure(),
+			otlpmetricgrpc.WithRetry(otlpmetricgrpc.RetryConfig{Enabled: sc.Enabled, InitialInterval: sc.Initial, MaxInterval: maxInt, MaxElapsedTime: sc.MaxElapsed})}
+		if sc.Headers != nil {
+			gopts = append(gopts, otlpmetricgrpc.WithHeaders(sc.Headers))
+		}
+		if sc.Timeout > 0 {
+			gopts = append(gopts, otlpmetricgrpc.WithTimeout(sc.Timeout))
+		}
+		x, err := otlpmetricgrpc.New(ctx, gopts...)
 		if err != nil {
 			return nil, err
 		}
@@ -346,14 +399,24 @@ func mkExporter(e int, endpoint string, sc *Scenario) (*exporter, error) {
 			if sc.Headers != nil {
 				opts = append(opts, otlploghttp.WithHeaders(sc.Headers))
 			}
+			if sc.Timeout > 0 {
+				opts = append(opts, otlploghttp.WithTimeout(sc.Timeout))
+			}
 			x, err := otlploghttp.New(ctx, opts...)
 			if err != nil {
 				return nil, err
 			}
 			return &exporter{func(c context.Context) error { return x.Export(c, recs) }, x.Shutdown}, nil
 		}
-		x, err := otlploggrpc.New(ctx, otlploggrpc.WithEndpoint(endpoint), otlploggrpc.WithInsecure(),
-			otlploggrpc.WithRetry(otlploggrpc.RetryConfig{Enabled: sc.Enabled, InitialInterval: sc.Initial, MaxInterval: maxInt, MaxElapsedTime: sc.MaxElapsed}))
+		gopts := []otlploggrpc.Option{otlploggrpc.WithEndpoint(endpoint), otlploggrpc.WithInsecure(),
+			otlploggrpc.WithRetry(otlploggrpc.RetryConfig{Enabled: sc.Enabled, InitialInterval: sc.Initial, MaxInterval: maxInt, MaxElapsedTime: sc.MaxElapsed})}
+		if sc.Headers != nil {
+			gopts = append(gopts, otlploggrpc.WithHeaders(sc.Headers))
+		}
+		if sc.Timeout > 0 {
+			gopts = append(gopts, otlploggrpc.WithTimeout(sc.Timeout))
+		}
+		x, err := otlploggrpc.New(ctx, gopts...)
 		if err != nil {
 			return nil, err
 		}
@@ -392,7 +455,10 @@ func startCollector(c *collector) (string, func(), error) {
 	return lis.Addr().String(), gs.Stop, nil
 }
 
-func runScenario(sc *Scenario) (ob Obs, failure string) {
+// runScenario returns the observation, a failure (a watchdog fired, a panic: reported as a violation when it
+// happens again in the sequential re-run) and, when the machine was too slow for the scenario's precondition to be
+// established, the reason why the run is inconclusive (re-run once sequentially, then left out of the verdict).
+func runScenario(sc *Scenario, watchdog time.Duration) (ob Obs, failure string, inconclusive string) {
 	defer func() {
 		if e := recover(); e != nil {
 			failure = fmt.Sprintf("panic: %v", e)
@@ -401,12 +467,12 @@ func runScenario(sc *Scenario) (ob Obs, failure string) {
 	c := &collector{sc: sc, start: time.Now()}
 	endpoint, stop, err := startCollector(c)
 	if err != nil {
-		return ob, "collector: " + err.Error()
+		return ob, "collector: " + err.Error(), ""
 	}
 	defer stop()
 	x, err := mkExporter(sc.Exporter, endpoint, sc)
 	if err != nil {
-		return ob, "exporter construction: " + err.Error()
+		return ob, "exporter construction: " + err.Error(), ""
 	}
 	ctx, cancel := context.WithCancel(context.Background())
 	defer cancel()
@@ -431,15 +497,15 @@ func runScenario(sc *Scenario) (ob Obs, failure string) {
 	var eerr error
 	select {
 	case eerr = <-done:
-	case <-time.After(30 * time.Second):
-		return ob, "export did not return within 30 s (watchdog)"
+	case <-time.After(watchdog):
+		return ob, fmt.Sprintf("export did not return within %v (watchdog)", watchdog), ""
 	}
 	ob.Elapsed = int64(time.Since(t0))
 	if shutdownStarted.Load() {
 		select {
 		case <-shutdownDone:
-		case <-time.After(10 * time.Second):
-			return ob, "Shutdown did not return within 10 s (watchdog)"
+		case <-time.After(watchdog):
+			return ob, fmt.Sprintf("Shutdown did not return within %v (watchdog)", watchdog), ""
 		}
 	} else {
 		sctx, scancel := context.WithTimeout(context.Background(), 5*time.Second)
@@ -464,7 +530,18 @@ func runScenario(sc *Scenario) (ob Obs, failure string) {
 	}
 	ob.ErrClass = errClass(eerr)
 	ob.Handled = countHandled(sc.Token)
-	return ob, ""
+	// preconditions the scenario relies on; a slow machine can break them, the exporter cannot
+	switch {
+	case ob.Attempts == 0:
+		inconclusive = "the collector saw no request at all (connection not ready before the exporter's own timeout)"
+	case !sc.Timed && time.Duration(ob.Elapsed) > 8*time.Second:
+		inconclusive = "the export took more than 8 s of wall clock (an unloaded run needs at most ~2): a default 10 s request / export timeout may have interfered"
+	case !sc.Timed && sc.MaxElapsed > 0 && time.Duration(ob.Elapsed) > sc.MaxElapsed/2:
+		inconclusive = "the export took more than half of MaxElapsedTime of wall clock: the limit was meant to be out of reach"
+	case (sc.CancelAt >= 0 || sc.ShutdownAt >= 0) && !sc.HookBefore && time.Duration(c.hookLag.Load()) > 300*time.Millisecond:
+		inconclusive = "the harness needed more than 300 ms to issue the cancellation / shutdown after the response: it may have lost the race against the back-off timer"
+	}
+	return ob, "", inconclusive
 }
 
 
@@ -680,7 +757,7 @@ type ShutExpObs struct {
 	LaterErrClass    int    `json:"later_export_err_class"`
 }
 
-func runShutdownExpired(e, variant int, token string) (ob ShutExpObs, failure string) {
+func runShutdownExpired(e, variant int, token string) (ob ShutExpObs, failure string, inconclusive string) {
 	defer func() {
 		if r := recover(); r != nil {
 			failure = fmt.Sprintf("panic: %v", r)
@@ -696,12 +773,12 @@ func runShutdownExpired(e, variant int, token string) (ob ShutExpObs, failure st
 	c := &collector{sc: sc, start: time.Now()}
 	endpoint, stop, err := startCollector(c)
 	if err != nil {
-		return ob, "collector: " + err.Error()
+		return ob, "collector: " + err.Error(), ""
 	}
 	defer stop()
 	x, err := mkExporter(e, endpoint, sc)
 	if err != nil {
-		return ob, "exporter construction: " + err.Error()
+		return ob, "exporter construction: " + err.Error(), ""
 	}
 	count := func() int { c.mu.Lock(); defer c.mu.Unlock(); return len(c.arrivals) }
 	ectx, ecancel := context.WithCancel(context.Background())
@@ -711,7 +788,9 @@ func runShutdownExpired(e, variant int, token string) (ob ShutExpObs, failure st
 	deadline := time.Now().Add(10 * time.Second)
 	for count() < 3 {
 		if time.Now().After(deadline) {
-			return ob, "the export did not reach its third attempt within 10 s"
+			ecancel()
+			<-exported
+			return ob, "", "the export did not reach its third attempt within 10 s: no retry loop to shut down"
 		}
 		time.Sleep(time.Millisecond)
 	}
@@ -738,8 +817,9 @@ func runShutdownExpired(e, variant int, token string) (ob ShutExpObs, failure st
 	case <-time.After(5 * time.Second):
 		tShut = time.Since(c.start)
 	}
-	// observe for 1.6 s: the export must come back, and nothing may arrive later than 1 s after Shutdown returned
-	window := time.After(1600 * time.Millisecond)
+	// observe for 4 s: the export must come back, and nothing may arrive later than 3 s after Shutdown returned
+	// (a request already on its way when Shutdown returned may be delivered late on a slow machine)
+	window := time.After(4 * time.Second)
 	var eerr error
 	select {
 	case eerr = <-exported:
@@ -749,7 +829,7 @@ func runShutdownExpired(e, variant int, token string) (ob ShutExpObs, failure st
 	}
 	c.mu.Lock()
 	for _, a := range c.arrivals {
-		if a.at > tShut+time.Second {
+		if a.at > tShut+3*time.Second {
 			ob.Late++
 		}
 	}
@@ -759,7 +839,7 @@ func runShutdownExpired(e, variant int, token string) (ob ShutExpObs, failure st
 		select {
 		case eerr = <-exported:
 		case <-time.After(10 * time.Second):
-			return ob, "export did not return even after its own context was cancelled"
+			return ob, "export did not return even after its own context was cancelled", ""
 		}
 	}
 	if eerr != nil {
@@ -779,7 +859,155 @@ func runShutdownExpired(e, variant int, token string) (ob ShutExpObs, failure st
 		}
 	}
 	ob.LaterErrClass = errClass(lerr)
-	return ob, ""
+	return ob, "", ""
+}
+
+// ---------------------------------------------------------------------------
+// The configured export timeout under option combinations: WithTimeout 300-500 ms x {no headers, WithHeaders,
+// OTEL_EXPORTER_OTLP_HEADERS} x {collector that never answers, collector that always fails retry-ably}; the
+// caller's context has no deadline.  gRPC: the timeout covers the whole export (MaxElapsedTime 60 s);
+// HTTP: the timeout is per attempt (http.Client.Timeout), the export is bounded by MaxElapsedTime (1 s) + one timeout.
+// ---------------------------------------------------------------------------
+
+type TimeoutCase struct {
+	Exporter int           `json:"exporter"`
+	Headers  int           `json:"headers"` // 0 none, 1 option, 2 environment
+	Hang     bool          `json:"hang"`
+	Timeout  time.Duration `json:"timeout"`
+	Bound    time.Duration `json:"bound"`
+	sc       *Scenario
+	col      *collector
+	stop     func()
+	x        *exporter
+	fail     string
+}
+
+type TimeoutObs struct {
+	Returned  bool   `json:"returned"`
+	Err       string `json:"err"`
+	ErrClass  int    `json:"err_class"`
+	Elapsed   int64  `json:"elapsed_ns"`
+	Attempts  int    `json:"attempts"`
+	Late      int    `json:"requests_after_return"`
+	HeadersOK bool   `json:"headers_on_every_request"`
+}
+
+func (tc *TimeoutCase) build(token string) {
+	sc := &Scenario{Exporter: tc.Exporter, Enabled: true, Initial: 20 * time.Millisecond, MaxElapsed: 60 * time.Second, Timed: true,
+		CancelAt: -1, ShutdownAt: -1, Token: token, Timeout: tc.Timeout, Hang: tc.Hang}
+	tc.Bound = tc.Timeout
+	if isHTTP(tc.Exporter) {
+		sc.MaxElapsed = time.Second
+		sc.Script = []Resp{{Status: 503}}
+		tc.Bound = sc.MaxElapsed + tc.Timeout
+	} else {
+		sc.Script = []Resp{{Code: 14}}
+	}
+	if tc.Headers == 1 {
+		sc.Headers = map[string]string{"x-verif-hdr": "v"}
+	}
+	tc.sc = sc
+	tc.col = &collector{sc: sc, start: time.Now(), release: make(chan struct{})}
+	endpoint, stop, err := startCollector(tc.col)
+	if err != nil {
+		tc.fail = "collector: " + err.Error()
+		return
+	}
+	tc.stop = stop
+	x, err := mkExporter(tc.Exporter, endpoint, sc)
+	if err != nil {
+		tc.fail = "exporter construction: " + err.Error()
+		return
+	}
+	tc.x = x
+}
+
+func (tc *TimeoutCase) run() (ob TimeoutObs, failure string, inconclusive string) {
+	defer func() {
+		if r := recover(); r != nil {
+			failure = fmt.Sprintf("panic: %v", r)
+		}
+	}()
+	if tc.fail != "" {
+		return ob, tc.fail, ""
+	}
+	defer tc.stop()
+	defer close(tc.col.release)
+	ctx, cancel := context.WithCancel(context.Background()) // no deadline of its own
+	defer cancel()
+	done := make(chan error, 1)
+	t0 := time.Now()
+	go func() { done <- tc.x.export(ctx) }()
+	var eerr error
+	select {
+	case eerr = <-done:
+		ob.Returned = true
+	case <-time.After(tc.Bound + 10*time.Second):
+	}
+	ob.Elapsed = int64(time.Since(t0))
+	tRet := time.Since(tc.col.start)
+	if ob.Returned {
+		time.Sleep(3 * time.Second) // anything arriving more than 2 s from now on was sent after the export had returned
+	} else {
+		cancel()
+		select {
+		case eerr = <-done:
+		case <-time.After(10 * time.Second):
+			return ob, "export did not return even after the caller's context was cancelled", ""
+		}
+	}
+	tc.col.mu.Lock()
+	ob.Attempts = len(tc.col.arrivals)
+	ob.HeadersOK = true
+	for _, a := range tc.col.arrivals {
+		if a.at > tRet+2*time.Second {
+			ob.Late++
+		}
+		if tc.Headers != 0 && !a.hdr {
+			ob.HeadersOK = false
+		}
+	}
+	tc.col.mu.Unlock()
+	if eerr != nil {
+		ob.Err = eerr.Error()
+		if len(ob.Err) > 200 {
+			ob.Err = ob.Err[:200]
+		}
+	}
+	ob.ErrClass = errClass(eerr)
+	sctx, scancel := context.WithTimeout(context.Background(), 2*time.Second)
+	tc.x.shutdown(sctx)
+	scancel()
+	if ob.Attempts == 0 {
+		inconclusive = "no request reached the collector (connection not ready within the export timeout): the export gave up, nothing to observe"
+	}
+	return ob, "", inconclusive
+}
+
+func buildTimeoutCases(r *vgen.Rand) []*TimeoutCase {
+	var out []*TimeoutCase
+	for e := 0; e < 6; e++ {
+		for h := 0; h < 3; h++ {
+			for _, hang := range []bool{true, false} {
+				out = append(out, &TimeoutCase{Exporter: e, Headers: h, Hang: hang, Timeout: time.Duration(300+r.Intn(201)) * time.Millisecond})
+			}
+		}
+	}
+	// exporters read OTEL_EXPORTER_OTLP_HEADERS when they are constructed: build the environment ones in a phase of their own,
+	// before anything else in this process constructs an exporter
+	for i, tc := range out {
+		if tc.Headers != 2 {
+			tc.build(fmt.Sprintf("ttk%04dx", i))
+		}
+	}
+	os.Setenv("OTEL_EXPORTER_OTLP_HEADERS", "x-verif-hdr=v")
+	for i, tc := range out {
+		if tc.Headers == 2 {
+			tc.build(fmt.Sprintf("ttk%04dx", i))
+		}
+	}
+	os.Unsetenv("OTEL_EXPORTER_OTLP_HEADERS")
+	return out
 }
 
 // ---------------------------------------------------------------------------
@@ -869,14 +1097,21 @@ func genSequence(r *vgen.Rand, e int) Scenario {
 	case 1, 2:
 		if n > 0 {
 			// cancellation during the wait after response k: a long back-off so that the cancellation wins the race with the timer
+			// k = 0: cancelled after the response has been written, i.e. during the wait, which lasts >= 1 s (Initial 2 s): the
+			// cancellation wins the race against the timer even on a machine 50 times slower.  k > 0: the waits before k must
+			// stay short, so the cancellation is issued before response k is written (no race at all: the attempt or the wait ends).
 			sc.CancelAt = r.Intn(n)
-			sc.Initial = 300 * time.Millisecond
+			if sc.CancelAt == 0 {
+				sc.Initial = 2 * time.Second
+			} else {
+				sc.HookBefore = true
+			}
 			sc.Kind = "cancel"
 		}
 	case 3:
 		if n > 0 && (e == 0 || e == 3) {
-			sc.ShutdownAt = r.Intn(n)
-			sc.Initial = 300 * time.Millisecond
+			sc.ShutdownAt = 0 // the wait it interrupts lasts >= 1 s; Shutdown takes effect ~15 ms after the response
+			sc.Initial = 2 * time.Second
 			sc.Kind = "shutdown"
 		}
 	}
@@ -898,7 +1133,7 @@ func fixedCorpus() []Scenario {
 			}
 			// a hint far beyond MaxElapsedTime must end the export (server's unit); it does not (same finding)
 			sc := base(e)
-			sc.MaxElapsed = 300 * time.Millisecond
+			sc.MaxElapsed = 5 * time.Second
 			sc.Script = []Resp{{Status: 429, RetryAfter: "3600"}, {Status: 200}}
 			out = append(out, sc)
 		} else {
@@ -908,13 +1143,13 @@ func fixedCorpus() []Scenario {
 			out = append(out, sc)
 			// RetryInfo beyond MaxElapsedTime: give up at once
 			sc = base(e)
-			sc.MaxElapsed = 300 * time.Millisecond
-			sc.Script = []Resp{{Code: 14, HasInfo: true, InfoNs: 10e9}, {Code: 0}}
+			sc.MaxElapsed = 5 * time.Second
+			sc.Script = []Resp{{Code: 14, HasInfo: true, InfoNs: 3600e9}, {Code: 0}}
 			sc.Kind = "over-limit"
 			out = append(out, sc)
 			sc = base(e)
-			sc.MaxElapsed = 300 * time.Millisecond
-			sc.Script = []Resp{{Code: 1}, {Code: 8, HasInfo: true, InfoNs: 400e6}, {Code: 0}}
+			sc.MaxElapsed = 5 * time.Second
+			sc.Script = []Resp{{Code: 1}, {Code: 8, HasInfo: true, InfoNs: 3600e9}, {Code: 0}}
 			sc.Kind = "over-limit"
 			out = append(out, sc)
 		}
@@ -1064,6 +1299,20 @@ func main() {
 		scs[i].Token = fmt.Sprintf("tok%06dx", i)
 	}
 
+	// export timeout x headers x collector: exporters are built first (environment phase), the exports run alongside everything else
+	tcs := buildTimeoutCases(r.Fork())
+	tobs := make([]TimeoutObs, len(tcs))
+	tfail := make([]string, len(tcs))
+	tincon := make([]string, len(tcs))
+	var twg sync.WaitGroup
+	for i, tc := range tcs {
+		twg.Add(1)
+		go func(i int, tc *TimeoutCase) {
+			defer twg.Done()
+			tobs[i], tfail[i], tincon[i] = tc.run()
+		}(i, tc)
+	}
+
 	// Shutdown with an expired context during a retry loop: started now, collected at the end (each takes ~1.7 s)
 	type shutCase struct{ e, variant int }
 	var shutCases []shutCase
@@ -1076,17 +1325,21 @@ func main() {
 	}
 	shutObs := make([]ShutExpObs, len(shutCases))
 	shutFail := make([]string, len(shutCases))
+	shutIncon := make([]string, len(shutCases))
 	var swg sync.WaitGroup
 	for i, sc := range shutCases {
 		swg.Add(1)
 		go func(i int, sc shutCase) {
 			defer swg.Done()
-			shutObs[i], shutFail[i] = runShutdownExpired(sc.e, sc.variant, fmt.Sprintf("stk%04dx", i))
+			shutObs[i], shutFail[i], shutIncon[i] = runShutdownExpired(sc.e, sc.variant, fmt.Sprintf("stk%04dx", i))
 		}(i, sc)
 	}
 
 	obs := make([]Obs, len(scs))
 	fails := make([]string, len(scs))
+	incon := make([]string, len(scs))
+	inconclusive := 0
+	var hangs atomic.Int64
 	var wg sync.WaitGroup
 	sem := make(chan struct{}, 24)
 	for i := range scs {
@@ -1095,16 +1348,46 @@ func main() {
 			defer wg.Done()
 			sem <- struct{}{}
 			defer func() { <-sem }()
-			obs[i], fails[i] = runScenario(&scs[i])
+			// once six exports have hung for 30 s the verdict is settled (a violation): do not spend 30 s on each further one
+			wd := 30 * time.Second
+			if hangs.Load() >= 6 {
+				wd = 5 * time.Second
+			}
+			obs[i], fails[i], incon[i] = runScenario(&scs[i], wd)
+			if fails[i] != "" {
+				hangs.Add(1)
+			}
 		}(i)
 	}
 	wg.Wait()
+	// anything that failed a watchdog or missed its precondition under the parallel load runs once more, alone
+	// (at most four watchdog failures are re-run - each may take the whole watchdog again; more than four exports hanging
+	// for 30 s at the same time is not scheduling noise and is reported as it is)
+	hangReruns := 0
+	for i := range scs {
+		if fails[i] != "" && hangReruns >= 4 {
+			continue
+		}
+		if fails[i] != "" || incon[i] != "" {
+			if fails[i] != "" {
+				hangReruns++
+			}
+			w.Tally("rerun-sequentially")
+			scs[i].Token += "r"
+			obs[i], fails[i], incon[i] = runScenario(&scs[i], 45*time.Second)
+		}
+	}
 
 	for i := range scs {
 		sc, ob := &scs[i], obs[i]
 		desc := map[string]any{"exporter": exporterNames[sc.Exporter], "scenario": sc, "observed": ob}
 		if fails[i] != "" {
 			w.Violation(fails[i], desc)
+			continue
+		}
+		if incon[i] != "" {
+			inconclusive++
+			w.Tally("inconclusive:" + sc.Kind)
 			continue
 		}
 		http := isHTTP(sc.Exporter)
@@ -1157,11 +1440,54 @@ func main() {
 		w.Tally(fmt.Sprintf("err_class:%d", ob.ErrClass))
 		w.Add(term, desc, sc.Kind+"-"+exporterNames[sc.Exporter], ob.Attempts > 1 || ob.ErrClass != 0)
 	}
+	twg.Wait()
 	swg.Wait()
+	// everything else has finished: re-run, one at a time, what failed or missed its precondition under the parallel load
+	for i, tc := range tcs {
+		if tfail[i] != "" || tincon[i] != "" {
+			w.Tally("rerun-sequentially")
+			n := &TimeoutCase{Exporter: tc.Exporter, Headers: tc.Headers, Hang: tc.Hang, Timeout: tc.Timeout}
+			if n.Headers == 2 {
+				os.Setenv("OTEL_EXPORTER_OTLP_HEADERS", "x-verif-hdr=v")
+			}
+			n.build(fmt.Sprintf("ttr%04dx", i))
+			os.Unsetenv("OTEL_EXPORTER_OTLP_HEADERS")
+			tcs[i] = n
+			tobs[i], tfail[i], tincon[i] = n.run()
+		}
+	}
+	for i, sc := range shutCases {
+		if shutFail[i] != "" || shutIncon[i] != "" {
+			w.Tally("rerun-sequentially")
+			shutObs[i], shutFail[i], shutIncon[i] = runShutdownExpired(sc.e, sc.variant, fmt.Sprintf("str%04dx", i))
+		}
+	}
+	for i, tc := range tcs {
+		desc := map[string]any{"exporter": exporterNames[tc.Exporter], "case": tc, "observed": tobs[i]}
+		if tfail[i] != "" {
+			w.Violation(tfail[i], desc)
+			continue
+		}
+		if tincon[i] != "" {
+			inconclusive++
+			w.Tally("inconclusive:timeout")
+			continue
+		}
+		ob := tobs[i]
+		term := vgen.App("CTimeout", vgen.N(uint64(tc.Exporter)), vgen.N(uint64(tc.Headers)), vgen.Bool(tc.Hang), vgen.Z(int64(tc.Timeout)), vgen.Z(int64(tc.Bound)),
+			vgen.Bool(ob.Returned), vgen.N(uint64(ob.ErrClass)), vgen.Z(ob.Elapsed), vgen.Nat(ob.Late), vgen.Nat(ob.Attempts), vgen.Bool(ob.HeadersOK))
+		w.Tally(fmt.Sprintf("timeout:headers=%d,hang=%v", tc.Headers, tc.Hang))
+		w.Add(term, desc, "timeout-"+exporterNames[tc.Exporter], true)
+	}
 	for i, sc := range shutCases {
 		desc := map[string]any{"exporter": exporterNames[sc.e], "shutdown_context": []string{"already cancelled", "expires after 1 ms"}[sc.variant], "observed": shutObs[i]}
 		if shutFail[i] != "" {
 			w.Violation(shutFail[i], desc)
+			continue
+		}
+		if shutIncon[i] != "" {
+			inconclusive++
+			w.Tally("inconclusive:shutdown-expired")
 			continue
 		}
 		ob := shutObs[i]
@@ -1190,6 +1516,15 @@ func main() {
 		}(bi)
 	}
 	bwg.Wait()
+	for bi := range bursts {
+		if bfail[bi] != "" { // a watchdog under the parallel load: once more, alone; a second failure is reported
+			w.Tally("rerun-sequentially")
+			for i := range bursts[bi].Tokens {
+				bursts[bi].Tokens[i] += "r"
+			}
+			bobs[bi], bfail[bi] = runBurst(&bursts[bi])
+		}
+	}
 	for bi, b := range bursts {
 		if bfail[bi] != "" {
 			w.Violation(bfail[bi], map[string]any{"exporter": exporterNames[b.Exporter], "burst": b})
@@ -1211,6 +1546,7 @@ func main() {
 			w.Add(term, desc, fmt.Sprintf("burst-gzip=%v-%s", b.Gzip, exporterNames[b.Exporter]), true)
 		}
 	}
+	w.Extra["inconclusive"] = inconclusive
 	if err := w.Flush(); err != nil {
 		fmt.Fprintln(os.Stderr, err)
 		os.Exit(2)
